@@ -36,6 +36,51 @@ def _render(case):
     return str(out)
 
 
+def _render_seq(case):
+    """several renderings on ONE generator, through held Tag objects where the call says so; -> [(out, contents, err)]"""
+    from flatland.out.markup import Generator
+    gen = Generator(case["markup"], **mc.kwargs_of(case["settings"]))
+    pool = mc.TagPool(gen)
+    res = []
+    for c in case["calls"]:
+        try:
+            out, contents = pool.render(c, mc.make_bind(c["bind"]), mc.kwargs_of(c["kwargs"]))
+            res.append((out, contents, None))
+        except AssertionError:
+            raise
+        except CaseTimeout:
+            raise
+        except Exception as e:  # noqa
+            res.append((None, None, type(e).__name__))
+    return res
+
+
+def _rand_seq(rng):
+    """2-6 renderings sharing one generator; tags of the same name share one held Tag object most of the time, in the
+    order the generator produced them (filled bodies before empty ones included)"""
+    calls = []
+    held = rng.random() < 0.8
+    base = None
+    for _ in range(rng.randint(2, 6)):
+        c = _rand_case(rng)
+        if base is not None and rng.random() < 0.6:
+            # same tag again, other data: what a held Tag object is for
+            c["tag"], c["via"] = base["tag"], base["via"]
+        if c["tag"].lower() == "textarea" and c["bind"] is not None and c["bind"]["kind"] == "scalar" and rng.random() < 0.4:
+            c["bind"]["u"] = ""
+        base = base or c
+        c.pop("markup", None)
+        c.pop("settings", None)
+        void = c["tag"].lower() in VOIDS
+        if held and rng.random() < 0.85:
+            c["handle"] = "%s/%s" % (c["via"], c["tag"].lower())
+        c["how"] = "call" if void or rng.random() < 0.5 else "openclose"
+        c["parse"] = False
+        calls.append(c)
+    return {"k": "seq", "markup": rng.choice(["xml", "xhtml", "html"]),
+            "settings": [["ordered_attributes", B(rng.random() < 0.5)]] if rng.random() < 0.4 else [], "calls": calls}
+
+
 def _rand_bind(rng):
     r = rng.random()
     if r < 0.25:
@@ -241,6 +286,12 @@ class C11(Property):
                  kwargs=[["type", S("radio")], ["value", S("x y\"<z")]]),
             {"k": "sugar", "u": "a&b<c>d\"e\nf\rg\th'&amp;&#10;"},
             {"k": "sugar", "u": ""},
+            # one held textarea object: a filled body, then an element whose text is empty (nothing may be left over)
+            {"k": "seq", "markup": "xhtml", "settings": [], "calls": [
+                dict(base, tag="textarea", bind={"kind": "scalar", "name": "n0", "u": "first <b>"}, kwargs=[], handle="t", how="call", parse=False),
+                dict(base, tag="textarea", bind={"kind": "scalar", "name": "n1", "u": ""}, kwargs=[], handle="t", how="call", parse=False),
+                dict(base, tag="textarea", bind={"kind": "scalar", "name": "n2", "u": "x"}, kwargs=[], handle="t", how="openclose", parse=False),
+                dict(base, tag="textarea", bind={"kind": "scalar", "name": "n3", "u": ""}, kwargs=[], handle="t", how="openclose", parse=False)]},
         ]
         return cases
 
@@ -261,6 +312,8 @@ class C11(Property):
                 yield {"k": "sugar", "u": mc.hostile(rng, 12)}
             elif r < 0.15:
                 yield _hostile_name_case(rng)
+            elif r < 0.19:
+                yield _rand_seq(rng)
             else:
                 yield _rand_case(rng)
 
@@ -273,6 +326,8 @@ class C11(Property):
             assert el.u == case["u"]
             return {"x": mc.safe(el.x), "xa": mc.safe(el.xa), "x_dec": mc.safe(html.unescape(el.x)),
                     "xa_dec": mc.safe(html.unescape(el.xa))}
+        if case["k"] == "seq":
+            return {"init_err": None, "outs": [{"out": mc.safe(o), "contents": mc.safe(c), "err": e} for o, c, e in _render_seq(case)]}
         try:
             out = _render(case)
         except AssertionError:
@@ -293,18 +348,32 @@ class C11(Property):
     def oracle(self, case):
         if case["k"] == "sugar":
             return self._oracle_sugar(case)
-        if not _names_in_grammar(case):
-            # tag / attribute names outside [A-Za-z][A-Za-z0-9_:.-]* are the template author's doing, not data
-            return []
-        fails = []
+        if case["k"] == "seq":
+            # every rendering of the sequence is held to the single-call statement: a Tag object or a generator must
+            # not carry anything (a body, attributes) from one rendering into the next
+            fails = []
+            for i, (c, (out, _, err)) in enumerate(zip(case["calls"], _render_seq(case))):
+                one = dict(c, k="tag", markup=case["markup"], settings=case["settings"])
+                for f in self._oracle_one(one, out, err):
+                    fails.append(dict(f, call=i))
+            return fails
         try:
-            out = _render(case)
+            out, err = _render(case), None
         except AssertionError:
             raise
         except CaseTimeout:
             raise
         except Exception as e:  # noqa
-            return [{"clause": "renders", "expected": "markup", "observed": type(e).__name__}]
+            out, err = None, type(e).__name__
+        return self._oracle_one(case, out, err)
+
+    def _oracle_one(self, case, out, err):
+        if not _names_in_grammar(case):
+            # tag / attribute names outside [A-Za-z][A-Za-z0-9_:.-]* are the template author's doing, not data
+            return []
+        fails = []
+        if err is not None:
+            return [{"clause": "renders", "expected": "markup", "observed": err}]
         events = mc.parse_events(out)
         want_tag = case["tag"].lower() if case["via"] == "tag" else case["tag"]
         flavour = case["contents_flavour"]
@@ -413,6 +482,8 @@ class C11(Property):
     def _data_strings(self, case):
         if case["k"] == "sugar":
             return [case["u"]]
+        if case["k"] == "seq":
+            return [x for c in case["calls"] for x in self._data_strings(dict(c, k="tag"))]
         out = [v["v"] for _, v in case["kwargs"] if v["t"] in ("s", "m")]
         if case["bind"]:
             out += [case["bind"]["name"], case["bind"]["u"]]
@@ -424,6 +495,13 @@ class C11(Property):
     def tags(self, case, obs):
         if case["k"] == "sugar":
             return ["kind=sugar", "len=%d" % min(len(case["u"]), 12)]
+        if case["k"] == "seq":
+            t = ["kind=seq", "calls=%d" % len(case["calls"])]
+            if any(c.get("handle") is not None for c in case["calls"]):
+                t.append("held-tag-object")
+            if any(c.get("how") == "openclose" for c in case["calls"]):
+                t.append("open-contents-close")
+            return t
         t = ["kind=tag", "markup=%s" % case["markup"], "via=%s" % case["via"], "tag=%s" % case["tag"].lower(),
              "bind=%s" % (case["bind"]["kind"] if case["bind"] else "none"), "nkwargs=%d" % len(case["kwargs"]),
              "contents=%s" % case["contents_flavour"], "err=%s" % obs.get("err")]
@@ -457,6 +535,20 @@ class C11(Property):
         if case["k"] == "sugar":
             for s in shorter(case["u"]):
                 yield dict(case, u=s)
+            return
+        if case["k"] == "seq":
+            for i in range(len(case["calls"])):
+                c = copy.deepcopy(case)
+                del c["calls"][i]
+                if c["calls"]:
+                    yield c
+            for i, call in enumerate(case["calls"]):
+                for j in range(len(call["kwargs"])):
+                    c = copy.deepcopy(case)
+                    k, _ = c["calls"][i]["kwargs"].pop(j)
+                    if k == "contents":
+                        c["calls"][i]["contents_flavour"], c["calls"][i]["intended_text"] = "none", None
+                    yield c
             return
         for i in range(len(case["kwargs"])):
             c = copy.deepcopy(case)
